@@ -41,6 +41,8 @@ AlignScores == LET B == BonusSeq(Text, Sch) IN
 V2IsSomeAlignment == (Pat # <<>> /\ Res("v2", TRUE).s >= 0) => Res("v2", TRUE).sc \in AlignScores
 V2NotAboveBest == (Pat # <<>> /\ Res("v2", TRUE).s >= 0) => Res("v2", TRUE).sc <= SetMax(AlignScores)
 V2DirSameScore == Res("v2", TRUE).sc = Res("v2", FALSE).sc
+(* NOT a theorem (and not required by C03): the DP is a heuristic for runs of consecutive matches, so the greedy V1  *)
+(* alignment can score higher than V2's, e.g. text abaaaaab / pattern aab / scheme history: V2 55, V1 56, best 61.   *)
 V1NotAboveV2 == Res("v1", TRUE).sc <= Res("v2", TRUE).sc /\ Res("v1", FALSE).sc <= Res("v2", TRUE).sc
 (* cutting long runs of one character down to Len(P) + 2 keeps / creates no witness: justifies judging giant lines *)
 RleSound == \A k \in KindSet : Pat # <<>> =>
@@ -50,7 +52,7 @@ Theorems == Live =>
     /\ Thm("AgreeWitness", AgreeWitness) /\ Thm("ResultsValid", ResultsValid) /\ Thm("GreedyComplete", GreedyComplete)
     /\ Thm("V1SpanTight", V1SpanTight) /\ Thm("V2IsSomeAlignment", V2IsSomeAlignment)
     /\ Thm("V2NotAboveBest", V2NotAboveBest) /\ Thm("V2DirSameScore", V2DirSameScore)
-    /\ Thm("V1NotAboveV2", V1NotAboveV2) /\ Thm("RleSound", RleSound)
+    /\ Thm("RleSound", RleSound)
 
 -------------------------------------------------------------------------------
 (* Case export (E): per live input the predicted result of all seven matchers in both scan directions, without a *)
